@@ -23,6 +23,8 @@ Template directives (all start with `//@@`; payloads in <<< >>> may span lines):
   //@@ AFTER <n> <<<anchor>>> <<<text>>>     insert text after n-th occurrence of anchor
   //@@ PRE <<<text>>>                    insert at the start of the body
   //@@ POST <<<text>>>                   insert at the end of the body (before `}`)
+  //@@ CUT <<<start>>> <<<end>>>          drop the source text from `start` up to (not including) `end`;
+                                         the number of dropped lines is reported in the evidence
   //@@ BODY                              emit `{ transformed body }`
   //@@ CHECKSIG <file> :: <hdr>.. <<<sig>>>  only checks that a (bodiless) declaration
                                          still has this signature
@@ -127,6 +129,16 @@ def transform_body(body, dirs, log):
             p = pos[n] if kind == 'BEFORE' else pos[n] + len(anchor)
             edits.append((p, p, text))
             log['R5 proof insert'] = log.get('R5 proof insert', 0) + 1
+        elif kind == 'CUT':
+            start, end = d[1], d[2]
+            a = body.find(start)
+            if a < 0:
+                raise LostAnchor(f'CUT start anchor {start!r} not found')
+            b = body.find(end, a + len(start))
+            if b < 0:
+                raise LostAnchor(f'CUT end anchor {end!r} not found')
+            edits.append((a, b, ''))
+            log['CUT (source lines dropped)'] = log.get('CUT (source lines dropped)', 0) + body[a:b].count('\n')
         elif kind == 'PRE':
             edits.append((0, 0, d[1] + '\n'))
             log['R5 proof insert'] = log.get('R5 proof insert', 0) + 1
@@ -270,6 +282,8 @@ def assemble(template_path, repo):
                         dirs.append((kind, int(toks[2]), p[0], p[1]))
                     elif kind in ('PRE', 'POST'):
                         dirs.append((kind, p[0]))
+                    elif kind == 'CUT':
+                        dirs.append(('CUT', p[0], p[1]))
                     else:
                         raise LostAnchor(f'unknown directive {kind}')
                     continue
